@@ -546,25 +546,27 @@ nfa, with no epsilon transition
         False
 
         """
-        enfa = self.copy()
-        trash = State("TrashNode")
-        enfa.add_final_state(trash)
-        for state in self._states:
-            if state in self._final_states:
-                enfa.remove_final_state(state)
-            else:
-                enfa.add_final_state(state)
-        for state in self._states:
-            for symbol in self._input_symbols:
-                state_to = []
-                eclose = self.eclose(state)
-                for state0 in eclose:
-                    state_to += self._transition_function(state0, symbol)
-                if not state_to:
-                    enfa.add_transition(state, symbol, trash)
+        # The final states can only be flipped on a deterministic automaton
+        dfa = self.to_deterministic().copy()
         for symbol in self._input_symbols:
-            enfa.add_transition(trash, symbol, trash)
-        return enfa
+            dfa.add_symbol(symbol)
+        trash = State("TrashNode")
+        while trash in dfa.states:
+            trash = State(str(trash.value) + "'")
+        if not dfa.start_states:
+            dfa.add_start_state(trash)
+        states = list(dfa.states)
+        for state in states:
+            if dfa.is_final_state(state):
+                dfa.remove_final_state(state)
+            else:
+                dfa.add_final_state(state)
+        dfa.add_final_state(trash)
+        for state in states + [trash]:
+            for symbol in dfa.symbols:
+                if not dfa(state, symbol):
+                    dfa.add_transition(state, symbol, trash)
+        return dfa
 
     def __neg__(self):
         """ Get the complement of the current Epsilon NFA
